@@ -94,7 +94,7 @@ def handleRd (o : Op) : String :=
       | none => "bad-op"
     | "optbool", some t =>
       match o.nat? "def" with
-      | some d => fin "" ((readOptionalBoolDER (d != 0) t s).map fun (v, r) => s!"v={b01 v} rest={showB r}")
+      | some d => fin "" ((readOptionalBool (d != 0) t s).map fun (v, r) => s!"v={b01 v} rest={showB r}")
       | none => "bad-op"
     | "optoctet", some t =>
       fin "" ((readOptionalOctets t s).map fun (p, b, r) => s!"present={b01 p} out={showB b} rest={showB r}")
@@ -163,7 +163,7 @@ def handleAdd (o : Op) : String :=
       if arcs.any (fun a => !inI64 a) then "bad-op" else
       -- asn1.Marshal comparison and read-back only for arcs the reader can represent
       let small := arcs.all (fun a => 0 ≤ a && a < 2 ^ 31 - 80)
-      match addOIDDER arcs with
+      match addOID arcs with
       | none => "err"
       | some bs =>
         let rt := if small then b01 (readOID bs == some (arcs.map Int.toNat, [])) else "na"
